@@ -94,8 +94,12 @@ def tagged_object_below_unknown_key(draw, spec, t):
         return None
     sub = gen.project(v, spec)
     sub[2] = '!' + v[1]
-    if draw(st.booleans()):
+    nest = draw(st.integers(0, 3))
+    if nest == 1:
         sub = T.Q([sub, T.S('x')])
+    elif nest == 2:
+        # two untagged levels above the tagged object
+        sub = T.M([('meta', T.Q([T.S('x'), T.M([('owner', sub)])]))])
     maps = [(p, s) for p, s in T.subtrees(t) if s[0] == 'm']
     if not maps:
         return None
